@@ -126,9 +126,11 @@ def run(ctx):
     vep = vep[0]
     ctx.analysed(vep)
     g("R19.1", "entry-point:function_idx", vep, CallResult("::get", "None", arg="f:function_idx"), err=(SSCE, "EntryPointError"))
-    for key, marker in (("input==output builtins", ["n:input_builtins", "n:output_builtins"]),
-                        ("is_felt252_span", ["c:is_felt252_span", "n:input_span"]),
-                        ("is_valid_entry_point_return_type", ["c:is_valid_entry_point_return_type", "n:panic_result"]),
+    # the four `require(..)?` of the validation are told apart by what their condition is computed from (a slice
+    # equality of the two builtin lists split off the signature, the two predicates, the subsequence `all`), not by names
+    for key, marker in (("input==output builtins", ["c:eq", "f:0", "f:1"]),
+                        ("is_felt252_span", ["c:is_felt252_span"]),
+                        ("is_valid_entry_point_return_type", ["c:is_valid_entry_point_return_type"]),
                         ("builtin-subsequence", ["c:all"])):
         g("R19.1", "entry-point:require:" + key, vep, CallResult("require", "Break", arg=marker), bypass="auto")
     g("R19.1", "entry-point:builtin-in-table", vep, CallResult("::contains", False, arg="c:get_generic_id"),
